@@ -22,6 +22,11 @@ CHECKS = {
     technique="SMT translation validation of evaluate_deltas in a typed orbital model (index range = its space and spin): z3 decides value equality for all tensor entries and target assignments, which implies no information-losing replacement",
     text="Each run of the real evaluate_deltas on generated delta chains/stars (occ/virt/general, spin labelled or not, explicit or Einstein targets) is validated by z3 in typed models up to 3o2v / 2o1v x spin.",
     note="Bounded generator (1-3 tensors, 1-4 deltas, <=4 contracted); the property's precondition (each contracted index on a non-delta object) is enforced by the generator; sat models replayed exactly."),
+ "C01": dict(
+    level=TV, design="2/C01", engine="detref",
+    technique="z3 equivalence (QF_LIA+Bool) of the delta polynomial returned by the real wicks() with a bit-string vacuum-expectation circuit whose orbital positions are symbolic; plus z3 (QF_NRA) validation of wicks() on tensor x operator products against concrete determinant sums with symbolic tensor entries",
+    text="For every enumerated operator string (all of length 2, sampled/exhaustive length 4, sampled 3/5/6/8, 0-2 normal-ordered groups) z3 shows that wicks' result equals the determinant-space vev for every assignment of orbitals in a 2o2v (thorough 3o3v) model; contracted products incl. delta evaluation and block rules are validated against sum_assign prod T * vev for all tensor values.",
+    note="Bounded: string shapes enumerated (not solver variables), model <=3o3v, spin-labelled operators not explored (documented refusal). Trusted: sympy's construction of NO objects, z3, vlib/detref.py (independent of adcgen's Wick code). sat models are replayed on concrete bit strings."),
 }
 NA_REASON = "check not built yet in this round (planned, see DESIGN.md section 2)"
 
